@@ -59,13 +59,23 @@ class Fresh:
         return Sourcefile.from_source(self.text)
 
 
+PRINT_KEYS = {'scope': '*:scope:print-statement-symbols-not-rescoped',
+              'undeclared': '*:undeclared:print-statement-symbols-not-substituted'}
+
+
 def issue_key(name, issue):
     """
     <entry>:<kind>:<class>.  Classes are deliberately coarse so that keys are stable over seeds:
     scope: unscoped | other-unit | stale-copy-of-unit | stale-copy-of-ancestor | stale-scoped-node (the scope is a dead
     weak reference or an Associate / TypeDef node that is no longer part of the unit); chain: <Node>-parent-<state>;
     undeclared: var | callee | typeattr | member
+
+    Symbols inside PrintStmt.values are one mechanism of their own, independent of the transformation: the field is not in
+    PrintStmt._traversable, so no Loki visitor (AttachScopes / rescope_symbols, SubstituteExpressions, FindVariables) reaches
+    them and no transformation handles PrintStmt itself.  Whatever clones / moves / renames code leaves them behind.
     """
+    if issue.get('where') == 'PrintStmt' and issue['kind'] in PRINT_KEYS:
+        return PRINT_KEYS[issue['kind']]
     parts = issue['key'].split(':')
     if issue['kind'] == 'scope':
         cls = parts[1]
